@@ -2,4 +2,5 @@ import GrVerif.Props.C08
 open GrVerif.Props.C08
 #print axioms glyph_cache_history_independent
 #print axioms glyph_is_what_the_tables_say
-#print axioms shape_is_a_function
+#print axioms hinted_advance_history_independent
+#print axioms hinted_advance_values
